@@ -126,7 +126,9 @@ class Check(BaseCheck):
         if kind == 'err':
             return isinstance(got, XLError) and str(got) == exp[1]
         if kind == 'num':
-            return is_num(got) and close(got, exp[1], TIGHT)      # one correctly rounded operation (plus serial conversion): far inside 1e-12
+            # one correctly rounded operation: far inside 1e-12; a date operand first becomes a serial, a double near 1e6 whose own rounding
+            # (up to 2.3e-10 in year 9999) survives a subtraction in full, hence the absolute allowance when dates are involved
+            return is_num(got) and abs(Fr(got) - exp[1]) <= TIGHT * max(1, abs(exp[1])) + getattr(self, 'serial_slack', 0)
         if kind == 'date':
             return dt_close(got, exp[1])
         if kind == 'arr':
@@ -137,6 +139,12 @@ class Check(BaseCheck):
         f = self.inject(a, b, op, how)
         r = self.e.raw(f)
         rec.case()
+
+        def datey(x):
+            if isinstance(x, list):
+                return any(datey(y) for y in x)
+            return isinstance(x, D) or (isinstance(x, str) and self.pdt(x) is not None)
+        self.serial_slack = Fr(1, 10 ** 9) if (datey(a) or datey(b)) else 0
         try:
             exp = M.combine(op, a, b, self.pdt)
         except M.Skip as s:
